@@ -872,6 +872,14 @@ struct Explorer {
         failed.push_back((int)c);
       }
     if (interrupted) return;
+    // a build that was stopped (a command failed or could not even be started) never exits 0
+    if (r.exit_code == 0 && r.out.find("ninja: build stopped:") != string::npos) {
+      Violation x;
+      x.prop = "C05"; x.clause = "build-stopped-with-exit-0";
+      size_t at = r.out.find("ninja: build stopped:");
+      x.detail = "ninja printed '" + r.out.substr(at, r.out.find('\n', at) - at) + "' and exited 0";
+      out->push_back(x);
+    }
     if (failed.empty()) return;
     // exit status
     bool code_ok = false;
@@ -2752,7 +2760,8 @@ struct Explorer {
       // (in a dumb terminal ninja puts an empty line before a block when the previous output did not
       // end in a newline; that does not separate the block from its status line in any harmful way)
       auto ends_with_at = [&](size_t pos, const string& h) { return pos >= h.size() && T.compare(pos - h.size(), h.size(), h) == 0; };
-      if (!custom && !(quiet && c.status == 0) && !ends_with_at(first, header) && !ends_with_at(first, header + "\n") && !ends_with_at(first, header_nl))
+      // (a custom status format: what the status line looks like is the user's business; the FAILED block is ninja's)
+      if (!(custom && c.status == 0) && !(quiet && c.status == 0) && !ends_with_at(first, header) && !ends_with_at(first, header + "\n") && !ends_with_at(first, header_nl))
         bad("output-not-after-its-status-line", "the output of '" + c.spec.id() + "' is not directly preceded by its status line" +
             (c.status ? " and FAILED block" : ""), c.spec.id());
     }
